@@ -56,10 +56,30 @@ var builtinCorpus = []Item{
 	{Name: "or-chain", Src: "find all 'cat' or 'dog' or 'bird'", Text: "catdogbird cow"},
 	{Name: "skip-take", Src: "find skip 1 take 2 'ab'", Text: "ab ab ab ab"},
 	{Name: "last", Src: "find last 2 digit", Text: "1 2 3 4"},
+	{Name: "nest-12", Src: "find all " + nestParens("'a' 'b'", 12), Text: "ab abab"},
+	{Name: "nest-18", Src: "find all " + nestParens("'a'", 18) + " 'b'", Text: "ab abab"},
+	{Name: "nest-seq-14", Src: "find all " + nestSeq(14), Text: "aaaaaaaaaaaaaaab"},
 	{Name: "err-undefined", Src: "find all nope", Text: "x"},
 	{Name: "err-parse", Src: "find all at least", Text: "x"},
 	{Name: "err-lex", Src: "find all 'unterminated", Text: "x"},
 	{Name: "err-type", Src: "set f to transform\n  return 1 == 1\nend\nreplace all 'a' with f", Text: "a"},
+}
+
+func nestParens(inner string, depth int) string {
+	s := inner
+	for i := 0; i < depth; i++ {
+		s = "(" + s + ")"
+	}
+	return s
+}
+
+// nestSeq builds ('a' ('a' ('a' ... 'b'))) of the given depth.
+func nestSeq(depth int) string {
+	s := "'b'"
+	for i := 0; i < depth; i++ {
+		s = "('a' " + s + ")"
+	}
+	return s
 }
 
 type Corpus struct {
